@@ -180,7 +180,7 @@ impl Model {
         let be = self.be();
         let mut rendering = "0".repeat(self.lz);
         rendering.push_str(std::str::from_utf8(&be).unwrap());
-        let kmax = l + 1;
+        let kmax = (l + 1).min(KMAX);
         let mut peeks = vec![];
         let mut frees = vec![];
         let mut posfree = vec![];
@@ -219,6 +219,9 @@ impl Model {
         }
     }
 }
+
+/// positional queries are made for 0..=min(L+1, KMAX), plus usize::MAX
+const KMAX: usize = 26;
 
 fn range_pairs(l: usize) -> Vec<(usize, usize)> {
     let mut v = vec![];
@@ -305,7 +308,7 @@ fn apply_real(ds: &mut DigitString, op: &Op) -> Result<(), ()> {
 /// Every public query of the real object, plus frozenness observed on a replayed copy.
 fn snapshot_real(ds: &DigitString, history: &[Op]) -> Snapshot {
     let l = ds.len() - count_leading(ds);
-    let kmax = l + 1;
+    let kmax = (l + 1).min(KMAX);
     let mut peeks = vec![];
     let mut frees = vec![];
     let mut posfree = vec![];
@@ -412,6 +415,23 @@ impl Check for C12 {
         let n = rng.range(1, 40);
         let mut model = Model::default();
         let mut ops = Vec::with_capacity(n);
+        // rare long bursts of one cheap operation (counters and capacities have limits too)
+        if rng.chance(1, 64) {
+            let burst = match rng.below(4) {
+                0 | 1 => Op::Put("0".into()),
+                2 => Op::Push("0".into()),
+                _ => Op::Shift(1),
+            };
+            let k = *rng.pick(&[70usize, 130, 260, 300]);
+            if rng.chance(1, 2) {
+                ops.push(Op::Reset);
+            }
+            for _ in 0..k {
+                let _ = model.apply(&burst);
+                ops.push(burst.clone());
+            }
+        }
+        let n = n + ops.len();
         while ops.len() < n {
             let want_refusal = rng.chance(refusal_pct, 100);
             let mut op = gen_op(rng, &w);
@@ -600,7 +620,7 @@ impl Check for C12 {
     }
 
     fn rule(&self) -> String {
-        "A run is one operation history (1-40 steps, per-run swarm weights, 10-40% of steps built with the model to be \
+        "A run is one operation history (1-40 steps, one run in 64 preceded by a burst of 70-300 identical cheap operations, per-run swarm weights, 10-40% of steps built with the model to be \
          refused in the current state) on text2num::digit_string::DigitString, with a full query snapshot after every \
          step. Non-trivial = at least one refused operation in the history; distinct = distinct 64-bit fingerprints \
          of (result, rendering) sequences among non-trivial runs (bitmap sketch, collisions undercount)."
